@@ -4,6 +4,7 @@ go 1.19
 
 require (
 	github.com/go-logr/logr v1.2.3
+	github.com/pckhoi/meow v0.0.0-20211009023351-e1fff1d3c870
 	github.com/wrgl/wrgl v0.0.0
 )
 
@@ -14,7 +15,6 @@ require (
 	github.com/google/uuid v1.3.0 // indirect
 	github.com/klauspost/compress v1.16.7 // indirect
 	github.com/mattn/go-runewidth v0.0.14 // indirect
-	github.com/pckhoi/meow v0.0.0-20211009023351-e1fff1d3c870 // indirect
 	github.com/pmezard/go-difflib v1.0.0 // indirect
 	github.com/rivo/uniseg v0.4.3 // indirect
 	github.com/stretchr/testify v1.8.1 // indirect
